@@ -189,6 +189,7 @@ def check(ctx, seed, kind):
         return
     cfg = gen_options(rng)
     w = {"fn": "check", "seed": seed, "kind": kind}
+    ctx.feature(*[f"src:{f}" for f in (feats or []) if isinstance(f, str)][:40])
     ctx.feature(f"source:{kind}", *[f"opt:{k}={v}" for k, v in cfg.items() if not k.startswith("conventions")], *[f"conv:{k.split('.')[1]}" for k in cfg if k.startswith("conventions")])
     res = gen.generate(sources, entry=entry, config=cfg, route="api", hashseed=0, timeout=240, hooks=False)
     key_src = json.dumps({k: (v if isinstance(v, str) else v.decode("latin-1")) for k, v in sources.items()}, sort_keys=True)
